@@ -135,6 +135,36 @@ func genAddrCase(rng *rand.Rand, id, flavour string) addrCase {
 	return ac
 }
 
+// rootExprVariant: the same repository measured from ROOT arguments that are revision expressions
+// reading commits (R~1, R^{tree}); git resolves them, so replace refs and grafts must not be
+// consulted there either. No reference is walked; the oracle starts from the objects the
+// expressions denote in the graph as stored.
+func rootExprVariant(ac *addrCase) (cases.ScanCase, []string) {
+	sc := ac.SC
+	sc.ID = ac.ID + "-rootexpr"
+	sc.Roots = nil
+	var args []string
+	for _, r := range ac.SC.Roots {
+		r.Walk = false
+		sc.Roots = append(sc.Roots, r)
+	}
+	for _, r := range ac.SC.Roots {
+		if r.O.K != "c" || strings.HasPrefix(r.Name, "refs/replace/") {
+			continue
+		}
+		cm := ac.SC.G.Commits[r.O.I-1]
+		e1 := r.Name + "^{tree}"
+		sc.Roots = append(sc.Roots, cases.RootSpec{O: model.Oid{K: "t", I: cm.Tree}, Walk: true, IsRef: false, Name: e1, Kind: rootKindOf(e1)})
+		args = append(args, e1)
+		if len(cm.Parents) > 0 {
+			e2 := r.Name + "~1"
+			sc.Roots = append(sc.Roots, cases.RootSpec{O: model.Oid{K: "c", I: cm.Parents[0]}, Walk: true, IsRef: false, Name: e2, Kind: rootKindOf(e2)})
+			args = append(args, e2)
+		}
+	}
+	return sc, args
+}
+
 // buildLayout materialises the case and every way of addressing it.
 func buildLayout(base string, ac *addrCase) (*addrLayout, *gitrepo.Repo, error) {
 	l := &addrLayout{Top: filepath.Join(base, "repo")}
@@ -200,7 +230,7 @@ type addrRun struct {
 	After  string
 }
 
-func (e *c10Env) runAddr(l *addrLayout, m addrMode, base string, race *run.Build, maxprocs int) addrRun {
+func (e *c10Env) runAddr(l *addrLayout, m addrMode, base string, race *run.Build, maxprocs int, extra ...string) addrRun {
 	work, _ := os.MkdirTemp(e.c.Scratch, "ar-")
 	defer os.RemoveAll(work)
 	logf := filepath.Join(work, "git.log")
@@ -215,7 +245,7 @@ func (e *c10Env) runAddr(l *addrLayout, m addrMode, base string, race *run.Build
 	if race != nil {
 		bin = race
 	}
-	opt := run.Opt{Dir: m.Dir(l), Args: []string{"--json", "--no-progress"}, PathFirst: e.fake, Env: env, Home: base, Timeout: 120 * time.Second}
+	opt := run.Opt{Dir: m.Dir(l), Args: append([]string{"--json", "--no-progress"}, extra...), PathFirst: e.fake, Env: env, Home: base, Timeout: 120 * time.Second}
 	if m.ViaGit {
 		opt.ViaGit = true
 		opt.GitArgs = []string{"-C", l.Top}
@@ -348,6 +378,48 @@ func checkC13(c *Ctx) {
 						Observed: map[string]interface{}{"exit": ar.Exit, "stderr": tail(ar.Stderr, 4)}})
 				}
 			}
+			// the same with ROOT arguments that git has to resolve through commits
+			if sc2, args2 := rootExprVariant(&ac); !ac.Shallow && len(args2) > 0 {
+				runs2 := make([]addrRun, len(addrModes))
+				for i, m := range addrModes {
+					wg.Add(1)
+					go func(i int, m addrMode) {
+						defer wg.Done()
+						runs2[i] = e.runAddr(l, m, base, nil, 0, args2...)
+					}(i, m)
+				}
+				wg.Wait()
+				c.CountEval(int64(len(runs2)))
+				for i, ar := range runs2 {
+					c.Distinct(sc2.ID + "/" + ar.Mode)
+					if !addrModes[i].ViaGit {
+						want, _ := filepath.EvalSymlinks(addrModes[i].GitDir(l))
+						prs = append(prs, protoRun{ID: sc2.ID + "/" + ar.Mode, Args: append([]string{"--json", "--no-progress"}, args2...), Events: ar.Events,
+							Exit: ar.Exit, Stdout: ar.Stdout, Want: want})
+					}
+					why := ""
+					if ar.Exit != 0 {
+						why = "no_report"
+					} else if ar.Stdout != runs2[0].Stdout {
+						why = "report_depends_on_addressing"
+					} else if ar.Before != ar.After {
+						why = "repository_modified"
+					}
+					if why != "" {
+						c.AddViolation(Violation{Predicate: why, Spec: "CliRun (addressing, ROOT expressions) / ObjGraph oracle", Kind: "addr",
+							Input:    map[string]interface{}{"case": ac, "mode": ar.Mode, "rootexpr": true},
+							Observed: map[string]interface{}{"exit": ar.Exit, "stderr": tail(ar.Stderr, 4), "args": args2}})
+					}
+				}
+				if runs2[0].Exit == 0 {
+					var m map[string]json.RawMessage
+					if json.Unmarshal([]byte(runs2[0].Stdout), &m) == nil {
+						o := &observed{Case: sc2, G: repo.G, Rev: repo.Rev, Hex: repo.Hex, JSON: m, HasGit: false}
+						s.addObserved("addr", o)
+						s.src[sc2.ID] = map[string]interface{}{"case": ac, "mode": "top", "rootexpr": true}
+					}
+				}
+			}
 			// the oracle on the objects as stored (one judged run per case)
 			if !ac.Shallow && runs[0].Exit == 0 {
 				var m map[string]json.RawMessage
@@ -382,8 +454,9 @@ func checkC13(c *Ctx) {
 func replayAddr(c *Ctx, raw json.RawMessage) bool {
 	var rp struct {
 		Input struct {
-			Case addrCase `json:"case"`
-			Mode string   `json:"mode"`
+			Case     addrCase `json:"case"`
+			Mode     string   `json:"mode"`
+			RootExpr bool     `json:"rootexpr"`
 		} `json:"input"`
 		Predicate string `json:"predicate"`
 	}
@@ -400,12 +473,17 @@ func replayAddr(c *Ctx, raw json.RawMessage) bool {
 	if err != nil {
 		Infra("replay: %v", err)
 	}
-	top := e.runAddr(l, addrModes[0], base, nil, 0)
+	var extra []string
+	jsc := ac.SC
+	if rp.Input.RootExpr {
+		jsc, extra = rootExprVariant(&ac)
+	}
+	top := e.runAddr(l, addrModes[0], base, nil, 0, extra...)
 	for i, m := range addrModes {
 		if m.Name != rp.Input.Mode {
 			continue
 		}
-		ar := e.runAddr(l, m, base, nil, 0)
+		ar := e.runAddr(l, m, base, nil, 0, extra...)
 		if ac.Shallow {
 			return ar.Exit != 1 || ar.Stdout != "" || !strings.HasPrefix(ar.Stderr, "error:") || strings.Contains(ar.Stderr, "panic:")
 		}
@@ -420,9 +498,9 @@ func replayAddr(c *Ctx, raw json.RawMessage) bool {
 	if strings.HasPrefix(rp.Predicate, "measures_other") && top.Exit == 0 {
 		var m map[string]json.RawMessage
 		json.Unmarshal([]byte(top.Stdout), &m)
-		o := &observed{Case: ac.SC, G: repo.G, Rev: repo.Rev, Hex: repo.Hex, JSON: m}
+		o := &observed{Case: jsc, G: repo.G, Rev: repo.Rev, Hex: repo.Hex, JSON: m}
 		jc, _ := o.judgeCase(maxTLCInt, maxTLCInt)
-		v := runJudge(sub, []map[string]interface{}{jc})[ac.SC.ID]
+		v := runJudge(sub, []map[string]interface{}{jc})[jsc.ID]
 		return v.Crashed || len(v.Wrong) > 0 || !v.Refs
 	}
 	return false
